@@ -151,37 +151,26 @@ Print Assumptions C19_schema_scalar_raises.
 (* ------------------------------------------------------------------------------------------ *)
 (* non-vacuity: concrete well-formed histories satisfy the hypotheses and end where they should *)
 
-Definition C19_h1 : list sop :=
-  [SAppend (PInt 3); SExtend [PInt 1; PAsn 2]; SSetItem (-1) (PInt 7); SSort false; SReverse;
-   SGetItem 0; SSetSlice 0 2 [PInt 5; PInt 6]; SClone true; SIn 6; SEncode].
 Example C19_seqof_nonvacuous :
-  l_wf_hist true false None C19_h1 = true /\
-  fst (sof_run true false None C19_h1) = Some [(0, CVal 5%Z); (1, CVal 6%Z); (2, CVal 1%Z)] /\
-  last (snd (sof_run true false None C19_h1)) ORet =
+  l_wf_hist true false None ex_h1 = true /\
+  fst (sof_run true false None ex_h1) = Some [(0, CVal 5%Z); (1, CVal 6%Z); (2, CVal 1%Z)] /\
+  last (snd (sof_run true false None ex_h1)) ORet =
     OBytes [48%N; 9%N; 2%N; 1%N; 5%N; 2%N; 1%N; 6%N; 2%N; 1%N; 1%N] /\
   l_ill true (Some [1%Z]) (SGetItem (-2)) = true /\ f18d true (Some [1%Z]) (SGetItem (-2)) = false.
 Proof. repeat split. Qed.
 
-Definition C19_cfg4 : rcfg :=
-  [(FReq, mkTag Univ false 2%N); (FOpt, mkTag Ctx false 0%N); (FDef 7, mkTag Ctx false 1%N); (FReq, mkTag Ctx false 2%N)].
-Definition C19_h2 : list rop :=
-  [RSetItem (KName 0) (PInt 1); RGetItem (KName 1); RSetPos (-1) (Some (PAsn 2)); RIsValue; RValues;
-   RSetName 2 (Some (PInt 9)); RClone true; RSetName 2 None; REncode].
 Example C19_record_nonvacuous :
-  has_req C19_cfg4 = true /\ r_wf_hist C19_cfg4 false (r_init C19_cfg4) C19_h2 = true /\
-  fst (r_run C19_cfg4 false (r_init C19_cfg4) C19_h2) = [Some 1%Z; None; Some 7%Z; Some 2%Z] /\
-  fst (rec_run C19_cfg4 false (Some []) C19_h2) = Some [Some (CVal 1%Z); Some CSchema; Some (CVal 7%Z); Some (CVal 2%Z)] /\
-  last (snd (rec_run C19_cfg4 false (Some []) C19_h2)) ORet = OBytes [48%N; 6%N; 2%N; 1%N; 1%N; 130%N; 1%N; 2%N] /\
-  r_ill C19_cfg4 (RGetItem (KName 9)) = true /\ r_in_api false (RGetItem (KName 9)) = true.
+  has_req cfg4 = true /\ r_wf_hist cfg4 false (r_init cfg4) ex_h2 = true /\
+  fst (r_run cfg4 false (r_init cfg4) ex_h2) = [Some 1%Z; None; Some 7%Z; Some 2%Z] /\
+  fst (rec_run cfg4 false (Some []) ex_h2) = Some [Some (CVal 1%Z); Some CSchema; Some (CVal 7%Z); Some (CVal 2%Z)] /\
+  last (snd (rec_run cfg4 false (Some []) ex_h2)) ORet = OBytes [48%N; 6%N; 2%N; 1%N; 1%N; 130%N; 1%N; 2%N] /\
+  r_ill cfg4 (RGetItem (KName 9)) = true /\ r_in_api false (RGetItem (KName 9)) = true.
 Proof. repeat split. Qed.
 
-Definition C19_h3 : list rop :=
-  [RGetItem (KName 0); RGetItem (KName 2); RSetItem (KName 1) (PInt 5); RGetItem (KPos (-2)); RGetPos 2 false;
-   RLen; RSetPos 2 (Some (PAsn 6)); RClone true; REncode].
 Example C19_choice_nonvacuous :
-  no_def cfg3 = true /\ c_wf_hist cfg3 None C19_h3 = true /\
-  fst (c_run cfg3 None C19_h3) = Some (2, Some 6%Z) /\
-  c_cv (fst (ch_run cfg3 ch_init C19_h3)) = Some [None; None; Some (CVal 6%Z)] /\
-  last (snd (ch_run cfg3 ch_init C19_h3)) ORet = OBytes [129%N; 1%N; 6%N] /\
+  no_def cfg3 = true /\ c_wf_hist cfg3 None ex_h3 = true /\
+  fst (c_run cfg3 None ex_h3) = Some (2, Some 6%Z) /\
+  c_cv (fst (ch_run cfg3 ch_init ex_h3)) = Some [None; None; Some (CVal 6%Z)] /\
+  last (snd (ch_run cfg3 ch_init ex_h3)) ORet = OBytes [129%N; 1%N; 6%N] /\
   cinv cfg3 ch_init /\ r_ill cfg3 (RSetItem (KPos 3) (PInt 1)) = true.
 Proof. repeat split. Qed.
